@@ -70,8 +70,18 @@ static const size_t FP_CAP = 3000000;
 
 enum Outcome { PASS, FAIL, SKIPPED };
 
+static uint64_t g_shrink_evals = 0;
+static std::chrono::steady_clock::time_point g_shrink_start;
+
 static Outcome run_one(int si, const std::vector<uint32_t> &tape) {
 	const Sub &s = (*g_subs)[si];
+	if (!g_counting) {
+		// shrinking phase: bounded effort (affects only how small the replay gets, never the verdict)
+		if (g_shrink_evals == 0) g_shrink_start = std::chrono::steady_clock::now();
+		g_shrink_evals++;
+		double el = std::chrono::duration<double>(std::chrono::steady_clock::now() - g_shrink_start).count();
+		if (g_shrink_evals > 600 || el > 45.0) return PASS;
+	}
 	SubStats &st = g_stats[si];
 	if (g_cur) {
 		size_t n = tape.size() < CUR_WORDS - 2 ? tape.size() : CUR_WORDS - 2;
